@@ -1,0 +1,30 @@
+//go:build verif
+// +build verif
+
+// Machine-checked contracts for this package (checked by /verif/govc). Comment-only.
+
+package keeper
+
+//@ import types "github.com/ovrclk/akash/x/audit/types"
+
+// ---- store layout (C06): 0x01 ++ owner(20) ++ auditor(20) ----
+//@ spec abstract auditKeyOf(id: types.ProviderID): str = "\x01" + addrBytes(id.Owner) + addrBytes(id.Auditor)
+//@ spec abstract auditPrefixOf(owner: iface): str = "\x01" + addrBytes(owner)
+
+//@ func providerKey
+//@   uses def:auditKeyOf
+//@   ensures result == auditKeyOf(id)
+//@ func providerPrefix
+//@   uses def:auditPrefixOf
+//@   ensures result == auditPrefixOf(id)
+
+//@ lemma auditKeyInj(a: types.ProviderID, b: types.ProviderID)
+//@   theory strings
+//@   requires len(addrBytes(a.Owner)) == 20 && len(addrBytes(b.Owner)) == 20 && auditKeyOf(a) == auditKeyOf(b)
+//@   ensures addrBytes(a.Owner) == addrBytes(b.Owner) && addrBytes(a.Auditor) == addrBytes(b.Auditor)
+//@ lemma auditPrefixExact(a: types.ProviderID, o: iface)
+//@   theory strings
+//@   requires len(addrBytes(a.Owner)) == 20 && len(addrBytes(o)) == 20
+//@   ensures hasPrefix(auditKeyOf(a), auditPrefixOf(o)) <==> addrBytes(a.Owner) == addrBytes(o)
+
+//@ property C06 := providerKey#*, providerPrefix#*, lemma:auditKeyInj, lemma:auditPrefixExact
